@@ -31,10 +31,14 @@ def _outcome(fn):
         return f"other:{type(exc).__name__}", None
 
 
-def _ev(api, nbits, order, inp, outbuf_mode, *, dtype=np.uint8, outsize=None, kernel=False):
+def _ev(api, nbits, order, inp, outbuf_mode, *, dtype=np.uint8, outsize=None, kernel=False, misalign=0):
     from sigpyproc.core import kernels
     from sigpyproc.io import bits
     arr = np.array(inp, dtype=dtype)
+    if misalign:          # the same values in a buffer that does not start on an 8-byte boundary (a slice of a larger array)
+        base = np.zeros(arr.size + misalign, dtype=dtype)
+        base[misalign:] = arr
+        arr = base[misalign:]
     fact = 8 // nbits if nbits in (1, 2, 4) else 1
     if outbuf_mode == "none":
         buf = None
@@ -168,6 +172,26 @@ def run(v) -> None:
                         events.append(_ev("pack", nb, sp, arr, mode))
                         if (ti + p) % 4 == 0:
                             events.append(_ev("pack", nb, order, arr, "dirty", kernel=True))
+    # long arrays: lengths around every power of two and multiple of 16 up to 1 kB, random contents, aligned and not -
+    # vectorised / batched kernels have a main loop and a remainder loop, and the seam is where they go wrong
+    longs = sorted({a + b for a in (16, 32, 48, 64, 96, 128, 256, 512, 1024) for b in (-1, 0, 1, 7)} | {9, 13, 23, 40, 100, 333})
+    if quick:
+        longs = [n for n in longs if n <= 130] + [257, 1031]
+    for nb in (1, 2, 4):
+        fact = 8 // nb
+        for order in ("big", "little"):
+            for n in longs:
+                mis = (n % 3)
+                mode = ("none", "zero", "dirty")[n % 3]
+                raw = [rng.randrange(256) for _ in range(n)]
+                raw[-1] = rng.randrange(1, 256)                   # a non-zero tail
+                events.append(_ev("unpack", nb, order, raw, mode, misalign=mis))
+                events.append(_ev("unpack", nb, order, raw, "dirty", kernel=True))
+                vals = [rng.randrange(2 ** nb) for _ in range(n * fact)]
+                vals[-fact:] = [2 ** nb - 1] * fact
+                events.append(_ev("pack", nb, order, vals, mode, misalign=mis))
+                events.append(_ev("pack", nb, order, vals, ("none", "zero", "dirty")[(n + 1) % 3]))
+                events.append(_ev("pack", nb, order, vals, "dirty", kernel=True))
     # error cases (Call action): wrong dtype, depth, order, buffer size
     for api in ("unpack", "pack"):
         for dt in (np.uint16, np.int8, np.float32, np.int64):
@@ -177,11 +201,13 @@ def run(v) -> None:
         for od in ("", "x", "Big", "LITTLE", "msb", "0"):
             events.append(_ev(api, 4, od, [1, 2, 3, 0], "none"))
         for nb in (1, 2, 4):
-            for wrong in (0, 1, 3, 5, 100):
-                good = 4 * (8 // nb) if api == "unpack" else 8 // (8 // nb)
+            fact = 8 // nb
+            good = 8 * fact if api == "unpack" else 8 // fact
+            for wrong in sorted({0, 1, 3, 5, 100, good - 1, good + 1, good + fact - 1, good + fact, max(0, good - fact), 2 * good}):
                 if wrong == good:
                     continue
                 events.append(_ev(api, nb, "big", [1, 0, 1, 0, 1, 1, 0, 1], "zero", outsize=wrong))
+                events.append(_ev(api, nb, "little", [1, 0, 1, 0, 1, 1, 0, 1] * 3, "dirty", outsize=(wrong if wrong != 3 * good else 1)))
     # python-side structural clauses that are not about values (same buffer returned, dtype)
     for e in events:
         v.evaluations += 1
